@@ -41,9 +41,9 @@ CHECKS = {
  "C03": ("exploration", "round-trip differential: public in-memory model before save vs after Open, canonical main part of the first save vs the save after reopening (structured diff keyed by element path), and stability over further open/save cycles", "3.2, 4/C03",
          "Held on API-built documents from the operation-script generator with a covering part in which each of 16 operation families dominates; differences are reported per element path."),
  "C04": ("exploration", "differential over harness-written foreign packages: parts byte-compared, content types and relationships compared semantically, run text ledger of the generator compared with the independently extracted text of the saved main part", "4/C04",
-         "Held on generated foreign packages (arbitrary prefixes, wrappers around runs, extra parts with own relationships, media of any name) opened and saved with and without append-only edits."),
+         "Held on generated foreign packages (arbitrary prefixes, wrappers around runs, extra parts with own relationships, media of any name, parts in other legal spellings and encodings, relationship targets in every legal spelling) opened and saved with and without append-only edits."),
  "C19": ("exploration", "crash/hang monitor + package monitor over hostile Markdown (inputs written to disk first) and token-sequence/formatting/structure comparison between the generator's block/inline tree and the converted document", "3.1, 3.4, 4/C19",
-         "Held on hostile byte strings and on Markdown generated from the listed constructs with unique word tokens, under all 64 option combinations and TOC levels 0-7."),
+         "Held on hostile byte strings and on Markdown generated from the listed constructs with unique word tokens, under all 64 option combinations and TOC levels 0-7, with fresh and shared converters (options given at construction or with the call) and batches of files in different directories compared with their conversion alone."),
  "C20": ("exploration", "unique-token ledger of the generated document checked in the exported Markdown (exactly once, body order, independent tokenisation of the markers around each token) and round-trip differential export -> convert -> export (block kind per token, fixpoint of the Markdown)", "4/C20",
          "Held on generated documents over the exporter's vocabulary in every interleaving, with and without Markdown metacharacters in the text, under random export option combinations; the simple (non-GFM) table style is exempt from the round trip because it has no table syntax. Runs that touch inside a word are generated in half of the cases; three recorded known findings (KNOWN_FINDINGS.txt, DESIGN.md 7.1a) concern only those."),
 }
